@@ -11,6 +11,21 @@ from vlib import KESTREL
 PROMPTS = [b"key: ", b"password: ", b"Password: ", b"Key name: "]
 
 
+def _default_signals():
+    """In the child, before exec: the dispositions a program started from an interactive shell has.  (A check started as a
+    background job of a non-interactive shell inherits SIGINT / SIGQUIT as ignored, and an ignored disposition survives
+    exec: Ctrl-C typed at the pseudo-terminal would then do nothing and the scenario would look like a hang.)"""
+    for sig in (signal.SIGINT, signal.SIGQUIT, signal.SIGTERM, signal.SIGHUP, signal.SIGPIPE, signal.SIGTSTP, signal.SIGTTIN, signal.SIGTTOU):
+        try:
+            signal.signal(sig, signal.SIG_DFL)
+        except (OSError, ValueError):
+            pass
+    try:
+        signal.pthread_sigmask(signal.SIG_SETMASK, [])
+    except (OSError, ValueError):
+        pass
+
+
 def _spawn(args, e, controlling, stdout_path=None, stderr_path=None):
     """controlling: the pseudo-terminal is the child's controlling terminal (so /dev/tty opens: prompt_password_tty).
     Otherwise the child has a session of its own WITHOUT a controlling terminal and the pseudo-terminal only as its
@@ -21,6 +36,7 @@ def _spawn(args, e, controlling, stdout_path=None, stderr_path=None):
     pid = os.fork()
     if pid == 0:
         try:
+            _default_signals()
             os.setsid()                      # new session; the slave was opened before, so it does not become controlling
             os.close(master)
             for fd in (0, 1, 2):
@@ -51,6 +67,7 @@ def run_tty(args, lines, env=None, timeout=60, interrupt=True, controlling=True,
         pid, fd = pty.fork()
         if pid == 0:
             try:
+                _default_signals()
                 os.execve(KESTREL, [KESTREL] + list(args), e)
             finally:
                 os._exit(127)
